@@ -594,6 +594,32 @@ func runR29(c *Ctx) {
 							return true
 						}
 					}
+					// the consultation wrapped into a helper: a module function that is handed the iterator, calls the
+					// closer on that parameter and returns (a wrapping of) its result as an error, which the caller hands on
+					if h := cl.Call.StaticCallee(); h != nil && h.Blocks != nil && h.Pkg != nil && inModule(h.Pkg.Pkg) && errResultIndex(h.Signature) >= 0 {
+						for i, a := range cl.Call.Args {
+							if rootValue(a) != root || i >= len(h.Params) {
+								continue
+							}
+							consults := false
+							eachInstr(h, func(i2 ssa.Instruction) {
+								c2, ok := i2.(*ssa.Call)
+								if !ok {
+									return
+								}
+								if o := calleeObj(c2); o != nil && closers[o.Name()] && recvOf(c2) != nil && rootValue(recvOf(c2)) == ssa.Value(h.Params[i]) {
+									if ok, _ := propagates(c2); ok {
+										consults = true
+									}
+								}
+							})
+							if consults {
+								if ok, _ := propagates(cl); ok {
+									return true
+								}
+							}
+						}
+					}
 				}
 				return false
 			}
